@@ -382,6 +382,56 @@ def run(ctx):
                            'also hold an excluded data element (really two unavailable members) are accepted, and the answer names the excluded fragment')
     r.require_min(5)
 
+    # ---------------- R06j the failure value of the shortcut is the one its caller falls back on
+    r = ctx.rule('R06j', 'XOR planner: a helper whose failure the caller detects with "== c" returns no other negative value',
+                 'the shortcut reporting -2 instead of -1 skips the fall-back to the general planner: a satisfiable request is refused')
+    hm2 = P.mod('src/builtin/xor_codes/xor_hd_code.c')
+    nj = 0
+    for fn in hm2.functions.values():
+        for b_ in fn.order:
+            tt = b_.insts[-1]
+            if tt.op != 'br' or len(tt.targets) != 2 or not tt.ops:
+                continue
+            from ..guards import implied_atoms as _ia
+            for truth in (True, False):
+                for at, tv in _ia(fn, tt.ops[0], truth):
+                    if at.pred not in ('eq', 'ne') or truth is False:
+                        continue
+                    ops_ = [strip_int_casts(fn, o) for o in at.ops]
+                    cst = [o for o in ops_ if re.match(r'^-\d+$', o)]
+                    if not cst:
+                        continue
+                    other = [o for o in ops_ if o not in cst]
+                    # the compared value: a call result, possibly merged with the sentinel itself (ret initialised to -1)
+                    cands, st_, seen_ = [], list(other), set()
+                    while st_:
+                        v = st_.pop()
+                        if v in seen_:
+                            continue
+                        seen_.add(v)
+                        d = fn.defs.get(v)
+                        if d is None:
+                            continue
+                        if d.op == 'phi':
+                            st_ += [strip_int_casts(fn, x) for x, _ in d.incoming]
+                        elif d.op == 'call' and d.callee in hm2.functions:
+                            cands.append(d)
+                    for call in cands:
+                        callee = hm2.functions[call.callee]
+                        from ..vflow import possible_consts as _pcs
+                        neg = set()
+                        for rt in [x for x in callee.insts() if x.op == 'ret' and x.ops]:
+                            neg |= {v for v in _pcs(callee, rt.ops[0]) if isinstance(v, int) and v < 0}
+                        nj += 1
+                        inst = f'{fn.name}: result of {call.callee[1:]} compared with {cst[0]} at line {tt.line}'
+                        if neg <= {int(cst[0])}:
+                            r.ok(inst + f': its only negative result is {cst[0]}', func=fn.name, loc=tt.loc)
+                        else:
+                            r.fail(inst, func=fn.name, sig=f'{call.callee[1:]} also returns {sorted(neg - {int(cst[0])})}', loc=tt.loc,
+                                   msg=f'{fn.name} recognises the failure of {call.callee[1:]} by "== {cst[0]}" but the helper also returns {sorted(neg - {int(cst[0])})}: '
+                                       'that failure is not recognised and the fall-back is skipped')
+    r.require_min(1)
+
     r = ctx.rule('R06f', 'bitmaps built from index lists are consumed only through single-bit tests',
                  'convert_list_to_bitmap sign-extends at index 31: a population count or whole-word comparison miscounts stripes that use fragment 31')
     shared.rule_list_bitmaps(ctx, P, r)
